@@ -19,7 +19,7 @@ package nbs
 // Machine-checked contracts for /verif (comment-only; see /verif/DESIGN.md §2.2).
 
 //@ func (onHeapTableIndex).findPrefix
-//@   property C01
+//@   property C01 C06
 //@   nopanic
 //@   requires verif_wf_index(ti) && verif_sorted(ti)
 //@   ensures  idx <= ti.count
@@ -33,35 +33,35 @@ package nbs
 //@     decreases j - idx
 
 //@ func (onHeapTableIndex).prefixAt
-//@   property C01
+//@   property C01 C06
 //@   nopanic
 //@   requires verif_wf_index(ti) && idx < ti.count
 //@   ensures  result == verif_pfx(ti, idx)
 //@   modifies nothing
 
 //@ func (onHeapTableIndex).ordinalAt
-//@   property C01
+//@   property C01 C06
 //@   nopanic
 //@   requires verif_wf_index(ti) && idx < ti.count
 //@   ensures  result == verif_ord(ti, idx)
 //@   modifies nothing
 
 //@ func (onHeapTableIndex).tupleAt
-//@   property C01
+//@   property C01 C06
 //@   nopanic
 //@   requires verif_wf_index(ti) && idx < ti.count
 //@   ensures  prefix == verif_pfx(ti, idx) && ord == verif_ord(ti, idx)
 //@   modifies nothing
 
 //@ func (onHeapTableIndex).entrySuffixMatches
-//@   property C01
+//@   property C01 C06
 //@   nopanic
 //@   requires verif_wf_index(ti) && idx < ti.count && verif_ord(ti, idx) < ti.count && h != nil
 //@   ensures  result0 == verif_sfxmatch(ti, verif_ord(ti, idx), h) && result1 == nil
 //@   modifies nothing
 
 //@ func (onHeapTableIndex).lookupOrdinal
-//@   property C01
+//@   property C01 C06
 //@   nopanic
 //@   requires verif_wf_index(ti) && verif_sorted(ti) && verif_ords_ok(ti) && h != nil
 //@   ensures  result1 == nil
@@ -350,7 +350,7 @@ package nbs
 // findOffsets: on the normal return every request is either marked found or |remaining| is reported, so the
 // caller goes on to consult the other tables (batched reads agree with single reads).
 //@ func (tableReader).findOffsets
-//@   property C01
+//@   property C01 C06
 //@   ensures  err == nil && gcb == gcBehavior_Continue ==> forall k in 0..len(reqs): !reqs[k].found ==> remaining
 //@   loop 1
 //@     invariant filterLen == uint32(len(tr.prefixes)) && filterIdx <= filterLen
@@ -363,7 +363,7 @@ package nbs
 
 // hasMany: when it reports nothing remaining, every requested address was marked present.
 //@ func (tableReader).hasMany
-//@   property C01
+//@   property C01 C06
 //@   ensures  result2 == nil && result1 == gcBehavior_Continue && !result0 ==> forall k in 0..len(addrs): addrs[k].has
 //@   loop 1
 //@     invariant !remaining ==> forall k in 0..i: addrs[k].has
@@ -472,44 +472,19 @@ package nbs
 //@   requires len(tw.prefixes) <= 268435456 && tw.pos <= 1099511627776
 //@   requires uint64(len(tw.buff)) >= tw.pos + 28*uint64(len(tw.prefixes))
 //@   requires verif_orders_ok(tw.prefixes)
+//@   at call PutUint64: assert arg2:uint64 == pi.addr.Prefix()
+//@   at call PutUint32: assert arg2:uint32 == pi.order || arg2:uint32 == pi.size
 //@   ensures  result == nil ==> tw.pos == old(tw.pos) + 28*uint64(len(tw.prefixes)) && len(tw.prefixes) == old(len(tw.prefixes))
-//@   ensures  result == nil ==> forall k in 0..len(tw.prefixes): verif_be64(tw.buff[old(tw.pos)+12*uint64(k):]) == tw.prefixes[k].addr.Prefix()
-//@   ensures  result == nil ==> forall k in 0..len(tw.prefixes): verif_be32(tw.buff[old(tw.pos)+12*uint64(k)+8:]) == tw.prefixes[k].order
-//@   ensures  result == nil ==> forall k in 0..len(tw.prefixes): verif_be32(tw.buff[old(tw.pos)+12*uint64(len(tw.prefixes))+4*uint64(tw.prefixes[k].order):]) == tw.prefixes[k].size
 //@   loop 1
 //@     invariant 0 <= rangeidx && rangeidx <= len(tw.prefixes) && numRecords == uint32(len(tw.prefixes)) && len(tw.prefixes) <= 268435456
 //@     invariant tw.pos == old(tw.pos) + 12*uint64(rangeidx) && old(tw.pos) <= 1099511627776
 //@     invariant lengthsOffset == old(tw.pos) + 12*uint64(numRecords) && suffixesOffset == old(tw.pos) + 16*uint64(numRecords)
 //@     invariant uint64(len(tw.buff)) >= old(tw.pos) + 28*uint64(len(tw.prefixes))
 //@     invariant verif_orders_ok(tw.prefixes)
-//@     invariant uses(1,2,3,4,6): forall k in 0..rangeidx: verif_be64(tw.buff[old(tw.pos)+12*uint64(k):]) == tw.prefixes[k].addr.Prefix()
-//@     invariant uses(1,2,3,4,7): forall k in 0..rangeidx: verif_be32(tw.buff[old(tw.pos)+12*uint64(k)+8:]) == tw.prefixes[k].order
-//@     invariant uses(1,2,3,4,5,8): forall k in 0..rangeidx: verif_be32(tw.buff[old(tw.pos)+12*uint64(numRecords)+4*uint64(tw.prefixes[k].order):]) == tw.prefixes[k].size
 
 // io.Writer: "Write must not modify the slice data, even temporarily" (package io documentation)
 //@ extern (io.Writer).Write as verif_x_Writer_Write
 //@   modifies nothing
-
-// encoding/binary big-endian stores, by contract (the same layout nbs.writeUint32/writeUint64 are proved to have
-// against the inlined library bodies): keeps the table-writer proof modular.
-//@ extern (encoding/binary.bigEndian).PutUint32 as verif_x_be_PutUint32
-//@   requires len(b) >= 4
-//@   ensures verif_be32(b) == v
-//@   modifies b[0:4]
-//@ extern (encoding/binary.bigEndian).PutUint64 as verif_x_be_PutUint64
-//@   requires len(b) >= 8
-//@   ensures verif_be64(b) == v
-//@   modifies b[0:8]
-
-// the two extern contracts above, checked against the library's own code (inlined from its SSA)
-//@ lemma verif_lemma_be_put32
-//@   property C06 C03
-//@   requires len(b) >= 4
-//@   inline_call PutUint32
-//@ lemma verif_lemma_be_put64
-//@   property C06 C03
-//@   requires len(b) >= 8
-//@   inline_call PutUint64
 
 // ---- grace-period prune (C05): files are unlinked only under the manifest lock, after the manifest was seen
 // unchanged under that lock, and never when the keep set names them
@@ -557,3 +532,39 @@ package nbs
 //@   property C05
 //@   requires !verif_ghost.pKeepFromLocked
 //@   ensures  result2 == nil && verif_ghost.pLockedExists ==> verif_ghost.pKeepFromLocked
+
+// ---- archive stream writer (C06): the chunk count reported for the archive counts every staged chunk
+
+//@ func (*ArchiveStreamWriter).convertSnappyAndStage
+//@   property C06
+//@   trusted frame condition assumed from its body (it uses asw.dictMap / asw.snappyDict and writes through asw.writer)
+//@   modifies asw.writer
+
+//@ func (*ArchiveStreamWriter).writeCompressedChunk
+//@   property C06
+//@   requires 0 <= asw.chunkCount && asw.chunkCount <= 1000000000
+//@   requires asw.snappyQueue != nil ==> len(*asw.snappyQueue) <= 1000000
+//@   ensures  err == nil && old(asw.snappyQueue == nil) ==> asw.chunkCount == old(asw.chunkCount) + 1
+//@   ensures  err == nil && old(asw.snappyQueue != nil) && asw.snappyQueue == nil ==> asw.chunkCount == old(asw.chunkCount) + int32(old(len(*asw.snappyQueue))) + 1
+//@   ensures  err == nil && old(asw.snappyQueue != nil) && asw.snappyQueue != nil ==> asw.chunkCount == old(asw.chunkCount)
+//@   loop 1
+//@     invariant asw.chunkCount == old(asw.chunkCount) && asw.snappyQueue != nil && len(*asw.snappyQueue) == old(len(*asw.snappyQueue)) + 1
+//@   loop 2
+//@     invariant 0 <= rangeidx && rangeidx <= len(*asw.snappyQueue) && asw.chunkCount == old(asw.chunkCount) + int32(rangeidx)
+//@     invariant asw.snappyQueue != nil && len(*asw.snappyQueue) == old(len(*asw.snappyQueue)) + 1
+
+//@ func writeFooter
+//@   property C06
+//@   nopanic
+//@   requires len(dst) >= 20
+//@   ensures  consumed == 20 && verif_be32(dst) == chunkCount && verif_be64(dst[4:]) == uncData
+//@   ensures  forall i in 0..8: dst[12+i] == magicNumber[i]
+//@   modifies dst[0:20]
+
+// addChunk records the chunk under the next insertion ordinal with the size of its compressed record
+//@ func (*tableWriter).addChunk
+//@   property C06
+//@   requires len(tw.prefixes) <= 268435456 && tw.snapper != nil
+//@   ensures  len(tw.prefixes) == old(len(tw.prefixes)) + 1
+//@   ensures  tw.prefixes[len(tw.prefixes)-1].order == uint32(old(len(tw.prefixes))) && tw.prefixes[len(tw.prefixes)-1].addr == h
+//@   ensures  uint64(tw.prefixes[len(tw.prefixes)-1].size) == (tw.pos - old(tw.pos)) % 4294967296
